@@ -66,6 +66,8 @@ type RefClient struct {
 	// Events delivered, per rid, in order: "event" names with seq if any
 	EventLog []ClientEvent
 	Closed   bool
+	// EverRef lists the rids that some stored resource ever referenced (non-soft).
+	EverRef map[string]bool
 }
 
 // ClientEvent is a journal entry of the client: an event frame received
@@ -257,6 +259,14 @@ func (c *RefClient) collect() {
 
 // checkDangling verifies that every non-soft reference held resolves.
 func (c *RefClient) checkDangling(ctx string) {
+	if c.EverRef == nil {
+		c.EverRef = map[string]bool{}
+	}
+	for _, r := range c.Store {
+		for _, x := range r.refs() {
+			c.EverRef[x] = true
+		}
+	}
 	rids := make([]string, 0, len(c.Store))
 	for rid := range c.Store {
 		rids = append(rids, rid)
@@ -269,6 +279,32 @@ func (c *RefClient) checkDangling(ctx string) {
 			}
 		}
 	}
+}
+
+// Confirmed returns the rids reachable from confirmed direct subscriptions
+// (provisional roots of outstanding requests excluded).
+func (c *RefClient) Confirmed() map[string]bool {
+	reach := map[string]bool{}
+	var visit func(rid string)
+	visit = func(rid string) {
+		if reach[rid] {
+			return
+		}
+		r := c.Store[rid]
+		if r == nil {
+			return
+		}
+		reach[rid] = true
+		for _, x := range r.refs() {
+			visit(x)
+		}
+	}
+	for rid, n := range c.Direct {
+		if n > 0 {
+			visit(rid)
+		}
+	}
+	return reach
 }
 
 // Holds reports whether the client retains the rid.
